@@ -8,7 +8,7 @@ from common import finish_replay, load_replay, main, rng
 
 from streamflow.core.deployment import DeploymentConfig, FilterConfig, Target
 from streamflow.core.exception import WorkflowExecutionException
-from streamflow.core.workflow import Job, Token
+from streamflow.core.workflow import Status, Job, Token
 from streamflow.deployment.filter import MatchingBindingFilter
 
 DEPS = ["d0", "d1", "d2", "d3"]
@@ -105,17 +105,76 @@ def check_chain(n):
     return None
 
 
+async def _placement_case():
+    """the real scheduler over 2..3 free deployments whose connectors answer get_available_locations after different delays: the job
+    goes to the FIRST declared target, whoever answers first"""
+    import os
+    import shutil
+    import tempfile
+
+    import streamflow.deployment.connector
+    from streamflow.core.config import BindingConfig
+    from streamflow.core.workflow import Job
+    from streamflow.deployment.connector import LocalConnector
+    from streamflow.main import build_context
+
+    class SlowLocal(LocalConnector):
+        def __init__(self, deployment_name, config_dir, delay=0, transferBufferSize=2 ** 16):
+            super().__init__(deployment_name, config_dir, transferBufferSize)
+            self.delay = delay
+
+        async def get_available_locations(self, service=None):
+            for _ in range(self.delay):
+                await asyncio.sleep(0)
+            if self.delay:
+                await asyncio.sleep(0.01 * self.delay)
+            return await super().get_available_locations(service)
+
+    streamflow.deployment.connector.connector_classes["slow-local"] = SlowLocal
+    workdir = tempfile.mkdtemp(prefix="c13.")
+    ctx = build_context({"database": {"type": "default", "config": {"connection": ":memory:"}}, "path": workdir})
+    try:
+        n = rng.randint(2, 3)
+        delays = [rng.choice([0, 1, 3]) for _ in range(n)]
+        targets = []
+        for i in range(n):
+            cfg = DeploymentConfig(name=f"dep{i}", type="slow-local", config={"delay": delays[i]}, external=True, lazy=False, workdir=workdir)
+            await ctx.deployment_manager.deploy(cfg)
+            targets.append(Target(deployment=cfg, workdir=workdir))
+        for k in range(3):
+            job = Job(name=f"/step/0.{k}", workflow_id=0, inputs={}, input_directory=None, output_directory=None, tmp_directory=None)
+            await asyncio.wait_for(ctx.scheduler.schedule(job, BindingConfig(targets=list(targets)), None), 20)
+            got = ctx.scheduler.job_allocations[job.name].target
+            if got is not targets[0]:
+                return {"unit": "schedule", "failure": "all declared targets are free, the job did not go to the first one", "answer_delays": delays,
+                        "placed_on": got.deployment.name, "job": job.name}
+            await ctx.scheduler.notify_status(job.name, Status.COMPLETED)
+    finally:
+        await ctx.deployment_manager.undeploy_all()
+        await ctx.close()
+        shutil.rmtree(workdir, ignore_errors=True)
+    return None
+
+
+def check_placement(n):
+    for _ in range(n):
+        bad = asyncio.run(_placement_case())
+        if bad:
+            return bad
+    return None
+
+
 def replay(path):
     d = load_replay(path)
     unit = d.get("unit", "")
     if unit.startswith("DefaultScheduler.schedule"):
-        finish_replay(path, check_chain(300))
+        finish_replay(path, check_chain(300) or check_placement(20))
     finish_replay(path, check_get_targets(600), "(600 random filters/jobs/target lists)")
 
 
 def crosscheck(n):
     n = int(n)
-    bad = [x for x in (check_get_targets(n * 4), check_chain(n)) if x]
+    bad = [x for x in (check_get_targets(n * 4), check_chain(n), check_placement(max(6, n // 10))) if x]
     print(json.dumps({"inputs": n * 5, "native_contract_failures": len(bad), "samples": bad[:2]}, default=str))
     sys.exit(1 if bad else 0)
 
